@@ -158,6 +158,18 @@ func (e errPolicyNotExist) Error() string {
 	return fmt.Sprintf("trust policy is not present. To create a trust policy, see: %s", trustPolicyLink)
 }
 
+// clone returns a copy of signatureVerification that shares nothing with it
+func (signatureVerification SignatureVerification) clone() SignatureVerification {
+	if signatureVerification.Override != nil {
+		override := make(map[ValidationType]ValidationAction, len(signatureVerification.Override))
+		for k, v := range signatureVerification.Override {
+			override[k] = v
+		}
+		signatureVerification.Override = override
+	}
+	return signatureVerification
+}
+
 // GetVerificationLevel returns [VerificationLevel] for the given
 // [SignatureVerification] struct.
 // It throws error if SignatureVerification is invalid.
